@@ -17,6 +17,7 @@ for d in sys.argv[1:]:
                                 'quick: VIOLATION ... no-failing-input-found (proof obligation / correspondence broke, oracle found no input)' if det else 'not detected by the quick tier'),
                         'command': 'tools/seed_run.sh %s quick (PYTHONPATH shadow copy of note_seq with patch.diff applied; ./check %s quick)' % (d, m['property']),
                         'output': [l for l in out.splitlines() if 'VIOLATION' in l][:3],
-                        'clean_tree_after': 'rc 0' if 'clean-tree rc after: 0' in out else out.splitlines()[-1:]}
+                        'clean_tree_after': 'rc 0' if 'clean-tree rc after: 0' in out else out.splitlines()[-1:],
+                        'round_recorded': 'outcome recorded in the session after the seed was made (the first-run outcome of its own round was lost with a snapshot)' if os.environ.get('SEED_NO_RESTORE') else None}
     json.dump(m, open(d + '/meta.json', 'w'), indent=1)
     print(d, m['detected_by']['status'], '(no-failing-input-found)' if nf else '', flush=True)
